@@ -354,7 +354,7 @@ func (c *Checker) ebpBuild(s ebpShape) string {
 		}
 		return bufI(fn, args, st)
 	}
-	n := &nav{in, newState()}
+	n := &nav{in, in.runInit("ebp", newState())}
 	ctor := "ebp:CreateComcastEBP"
 	if s.cable {
 		ctor = "ebp:CreateCableLabsEbp"
